@@ -43,6 +43,10 @@ func (e *Evaluator) arrayReferenceEvaluation(
 			return err
 		}
 
+		if id == nil {
+			return nil
+		}
+
 		// a[1, 2]
 		if id.IsCommaIdentifier() {
 			base.SetValueT(
@@ -262,6 +266,10 @@ func (e *Evaluator) stringReferenceEvaluation(
 			return err
 		}
 
+		if id == nil {
+			return nil
+		}
+
 		// a[1..]
 		if id.IsTargetIdentifier("..") {
 			base.SetValueT(
@@ -349,9 +357,13 @@ func (e *Evaluator) generalReferenceEvaluation(
 ) error {
 
 	for {
-		_, isCloseParentheses, err := p.ReadWithCheck("]")
+		closeT, isCloseParentheses, err := p.ReadWithCheck("]")
 		if err != nil {
 			return err
+		}
+
+		if closeT == nil {
+			return nil
 		}
 
 		if !isCloseParentheses {
@@ -414,9 +426,13 @@ func (e *Evaluator) integerReferenceEvaluation(
 ) error {
 
 	for {
-		_, isCloseParentheses, err := p.ReadWithCheck("]")
+		closeT, isCloseParentheses, err := p.ReadWithCheck("]")
 		if err != nil {
 			return err
+		}
+
+		if closeT == nil {
+			return nil
 		}
 
 		if !isCloseParentheses {
